@@ -831,7 +831,10 @@ def provInvariants (a : Acc) (lineNo : Nat) (op : Line) (ok : Bool) (b t : State
       a.spec lineNo "C06.prune-exact" (Spec.Prov.pruneExact b t)
     else a
   let a := a.spec lineNo "C06.current-key-resolves" (Spec.Prov.currentKeyResolves t)
-  let a := if op.name == "begin" || op.name == "end" then a.spec lineNo "C06.pruned-only-when-due" (Spec.Prov.prunedOnlyWhenDue b t) else a
+  -- (every operation except the removal of a validator, whose assignments are deleted on purpose)
+  let a := if op.name != "rmval" then
+      (a.spec lineNo "C06.pruned-only-when-due" (Spec.Prov.prunedOnlyWhenDue b t)).spec lineNo "C05.replaced-key-stays-reserved" (Spec.Prov.prunedOnlyWhenDue b t)
+    else a
   a.spec lineNo "C05.key-inv" (Spec.Prov.keyInv t)
 
 def stepProv (d : ProvDrv) (a : Acc) (s : Step) : ProvDrv × Acc :=
